@@ -26,6 +26,40 @@ T = {
  "C08-B": ("stochastic_round rewritten as floor(scale_x + uniform)", "training phase, an exact-code input of magnitude >= 2 steps and a draw within one ulp of 1 (float32 n+u rounds up before the floor)"),
  "C09-A": ("quantized_bits.get_config flattens post_training_scale with np.ravel", "auto alpha with a post-training scale that is not laid out on the last axis (e.g. the per-row scale of scale_axis=0)"),
  "C09-B": ("quantized_hswish.get_config allow-list omits scale_axis", "quantized_hswish with alpha auto/auto_po2, a non-default scale_axis and an input of rank >= 2"),
+ "C10-A": ("safe_eval.IsNum rewritten with str.isdigit", "a float literal in exponent form (1e-05, 2.5E-2, 1e+16), hand written or produced by str() for |v| < 1e-4"),
+ "C10-B": ("ternary.__str__ tests the truthiness of threshold", "ternary with threshold exactly 0 (valid zero dead band): printed text re-parses with the default threshold 0.33"),
+ "C11-A": ("QGRUCell implementation=1, reset_after: candidate recurrent bias added after the reset gate", "reset_after=True, implementation=1, use_bias=True and a non-zero recurrent bias (bias initialiser is zeros)"),
+ "C11-B": ("QConv2D groups>1 branch passes self.kernel instead of the quantized kernel", "groups > 1 together with a kernel quantizer or mask"),
+ "C12-A": ("utils.get_config falls back to the class entry per parameter", "a layer with both a (partial) name entry and a class entry: missing parameters are filled from the class entry, {} name entries no longer opt out"),
+ "C12-B": ("transfer_weights copies trainable_weights only", "transfer_weights=True and non-default BatchNormalization moving statistics or a frozen layer"),
+ "C13-A": ("QBatchNormalization.get_config omits None entries", "a QBatchNormalization built with an explicitly None beta/gamma/mean/variance quantizer (constructor defaults are po2 quantizers)"),
+ "C13-B": ("QActivation.get_config stores str(quantizer)", "an object-form activation with an option __str__ does not print (relu_upper_bound, is_quantized_clip, qnoise_factor) and inputs reaching the bound"),
+ "C14-A": ("po2 exponent extraction clamps |weight| at epsilon", "a wide po2 quantizer (quantized_po2 bits>=7 / quantized_relu_po2 bits>=6) and a weight on the quantizer's floor (zero / pruned / negative under relu_po2)"),
+ "C14-B": ("BN fusing terms computed before the quantized weights are written back", "fused QConv2D/QDepthwiseConv2D with use_bias=True, a bias quantizer and an off-grid bias (first export only)"),
+ "C15-A": ("unfold_model._clone_weights skips layers without trainable weights", "a model that besides folded layers holds a frozen layer or a BatchNormalization(center=False, scale=False)"),
+ "C15-B": ("QConv2DBatchnorm quantizes the folded bias only when use_bias", "use_bias=False together with a bias quantizer"),
+ "C16-A": ("get_exp uses frexp (floor) instead of ceil(log2(max_value))", "a po2 operand with a non power-of-two max_value > 1 whose log2 has fraction >= 0.5 (3, 6, 7, 12) paired with a fixed-point operand, values near the top of both ranges"),
+ "C16-B": ("Mux sign-bit rule keyed on the input operand only", "unsigned weights (quantized_relu / relu_po2) with a binary +-1 or ternary input"),
+ "C17-A": ("accumulator growth ceil(round(log2 N, 4))", "N in (2^k, 2^k(1+3.5e-5)) with k >= 15, e.g. 32769 terms"),
+ "C17-B": ("FixedPointAdder fractional bits use the result's sign bit", "operands of mixed signedness where the unsigned one has strictly more fractional bits"),
+ "C18-A": ("is_inference: po2 weight type capped by the signed maximum of the weights", "QTools(is_inference=True), po2 kernel/bias whose largest-magnitude value is negative and an octave above the largest positive one"),
+ "C18-B": ("analyze_accumulator negative-side bound multiplied by (x_min < 0)", "a non-negative input range (after quantized_relu) and a negative-dominated output channel"),
+ "C19-A": ("Conv2D operation count uses the dilated kernel extent", "Conv2D with dilation_rate > 1 and kernel > 1"),
+ "C19-B": ("extract_energy_sum/profile: `get(class) or default`", "a cost setting that maps a class to an empty key list with a non-empty default"),
+ "C20-A": ("layer_indexes stored as set(...) if truthy else None", "layer_indexes=[] (quantize nothing) becomes None (no restriction)"),
+ "C20-B": ("_act_size memoises the output element count per layer name", "a trial whose same-named layer has another output shape than the reference (tune_filters with a factor != 1)"),
+}
+H = {
+ "C07-A": "check strengthened after reading the sub-agent's description and before the first evaluation: a 'traced_variable' way (factor set before build, quantizer traced in a tf.function, later factors through the Variable) was added; the earlier eager-only workload could not have seen it",
+ "C08-A": "exact half-way tie inputs added to the inference comparison before evaluation (random inputs never hit a tie)",
+ "C08-B": "the two extreme legal draws u=0 and u=1-2^-23 added to the controlled stream before evaluation (grid draws never come within an ulp of 1)",
+ "C09-B": "quantized_hswish got 'auto'/'auto_po2' alpha in the option lattice before evaluation (scale_axis is functional only with an auto scale)",
+ "C10-B": "threshold 0.0 (falsy but meaningful) added to the ternary option lattice before evaluation; falsy values were added for qnoise_factor and the exponent bounds too",
+ "C12-B": "weight-transfer comparison extended from selected layers to every layer before evaluation (BatchNormalization statistics of unselected layers were not compared)",
+ "C13-A": "QBatchNormalization variants with explicitly None quantizers added to the model generator before evaluation",
+ "C15-A": "a frozen conv and a statistics-only BatchNormalization added to the fold/unfold model generator before evaluation",
+ "C16-A": "an 'observed operands' path (operand values taken from the running quantizers, non power-of-two max_value) was added before evaluation; the grid only used power-of-two max_value",
+ "C18-A": "the data type map is now built and checked for is_inference=False and True (before evaluation); it was False only",
 }
 for k, (summary, needs) in T.items():
   p = os.path.join(HERE, "seeded", k, "meta.json")
@@ -33,5 +67,7 @@ for k, (summary, needs) in T.items():
     m = json.load(open(p))
     m["change"] = summary
     m["needs_to_manifest"] = needs
+    if k in H:
+      m["history"] = H[k]
     json.dump(m, open(p, "w"), indent=1)
     print("updated", k, "caught_by", m.get("caught_by"))
